@@ -395,6 +395,17 @@ RemoveText(s, e) ==
               IN {Ok(SetF(s1, e, "cont", <<>>), 0)}
   ELSE {Ok(SetF(s, e, "cont", <<>>), 0)}
 
+\* ------------------------------------------------------------------ character content items of mixed content
+\* (both work on the handle alone: no model, no version; positions count all content items)
+InsertText(s, e, pos, txt) ==
+  IF KMode(Kind(s, e)) # "Mixed" THEN {Fail(s, "IncorrectContentType")}
+  ELSE IF pos < 0 \/ pos > Len(Cont(s, e)) THEN {Fail(s, "InvalidPosition")}
+  ELSE {Ok(SetF(s, e, "cont", InsAt(Cont(s, e), pos, CItem(SVal(txt)))), 0)}
+RemoveTextItem(s, e, pos) ==
+  IF KMode(Kind(s, e)) # "Mixed" THEN {Fail(s, "IncorrectContentType")}
+  ELSE IF pos < 0 \/ pos >= Len(Cont(s, e)) \/ Cont(s, e)[pos + 1].t # "c" THEN {Fail(s, "InvalidPosition")}
+  ELSE {Ok(SetF(s, e, "cont", DelAt(Cont(s, e), pos + 1)), 0)}
+
 \* ------------------------------------------------------------------ attributes, comment
 SetAttrRaw(s, e, an, val) ==
   LET A == s.n[e].at
@@ -902,9 +913,11 @@ LoadDocs ==
    \* a child that the oldest version does not know, contributed by a newer file
    pf |-> DocOf("V50", <<PkgA(<<DN("SHORT-NAME-FRAGMENTS", <<>>)>>)>>),
    px |-> DocOf("V50", <<PkgA(<<Els(<<DNamed("I-SIGNAL", "s", <<>>)>>)>>)>>),
-   \* two files that diverge below a non-splittable element (differently named XREF-TARGETs in one L-2); cf also brings a new package
+   \* two files that diverge below a non-splittable element (differently named XREF-TARGETs in one L-2); cf also brings a new package with a reference
    cd |-> DocOf("V50", <<PkgA(<<DescX("x")>>), DNamed("AR-PACKAGE", "b", <<>>)>>),
-   cf |-> DocOf("V50", <<DNamed("AR-PACKAGE", "z", <<>>), PkgA(<<DescX("y")>>)>>),
+   cf |-> DocOf("V50", <<DNamed("AR-PACKAGE", "z", <<Els(<<ISigRef("q", <<"a", "s">>)>>)>>), PkgA(<<DescX("y")>>)>>),
+   \* two new packages next to each other
+   p2 |-> DocOf("V50", <<DNamed("AR-PACKAGE", "y", <<>>), DNamed("AR-PACKAGE", "z", <<>>)>>),
    \* mixed content: an inline element (to be merged with the XREF-TARGET that cd has in the same L-2)
    mt |-> DocOf("V50", <<PkgA(<<DN("DESC", <<DX("L-2", <<[n |-> "L", v |-> EVal("EN")]>>, <<DL("TT", SVal("x"))>>)>>)>>)>>),
    \* a kind clash (k2 against k1 at /a10/s) behind a new package whose path /a1 is a string prefix, but no ancestor, of /a10
@@ -986,7 +999,7 @@ RenderDoc(d) == "<" \o d.n \o RenderAttrs(d.at) \o ">" \o (IF d.v # <<>> THEN Va
 RenderDocs(ds) == IF ds = <<>> THEN "" ELSE RenderDoc(Head(ds)) \o RenderDocs(Tail(ds))
 LoadText(dname) ==
   LET doc == LoadDocs[dname] IN
-  "<?xml version=\"1.0\" encoding=\"utf-8\"?>\n<AUTOSAR xsi:schemaLocation=\"http://autosar.org/schema/r4.0 " \o XsdOf(doc.ver)
+  "<?xml version=\"1.0\" encoding=\"utf-8\"" \o (IF dname \in {"pe", "pn"} THEN " standalone=\"no\"" ELSE "") \o "?>\n<AUTOSAR xsi:schemaLocation=\"http://autosar.org/schema/r4.0 " \o XsdOf(doc.ver)
   \o "\" xmlns=\"http://autosar.org/schema/r4.0\" xmlns:xsi=\"http://www.w3.org/2001/XMLSchema-instance\">" \o RenderDocs(doc.root.c) \o "</AUTOSAR>"
 
 \* ------------------------------------------------------------------ dispatcher: action record -> outcomes
@@ -1009,6 +1022,8 @@ Do(s, a) ==
     [] a.op = "SetComment"     -> SetComment(s, a.p, a.name)
     [] a.op = "AddToFile"      -> AddToFile(s, a.p, a.f)
     [] a.op = "RemoveFromFile" -> RemoveFromFile(s, a.p, a.f)
+    [] a.op = "InsertText"     -> InsertText(s, a.p, a.pos, a.name)
+    [] a.op = "RemoveTextItem" -> RemoveTextItem(s, a.p, a.pos)
     [] a.op = "Duplicate"      -> Duplicate(s, a.m)
     [] a.op = "Load"           -> Load(s, a.m, a.k, a.name, a.ver = "lenient")
 
